@@ -288,4 +288,25 @@ def inverseBeforeBandFix (conds : CondTab α n m) (ax : Tab α n) (ay : Tab α m
     Simplex.normalized b u
 
 
+/-! Product before fix (cells of zero base rate were divided through; a numerator that rounding or an inexactly
+    normalised operand makes slightly negative then yields -inf, which wins the min) -/
+/-- the part shared by both product implementations: (b, u, a) before validation / normalisation -/
+def product2RawBeforeZeroCellFix {n0 n1} (w0 : Opinion α n0) (w1 : Opinion α n1) : Opinion α (n0 * n1) :=
+  let p := outer2 w0.projection w1.projection
+  let a := outer2 w0.a w1.a
+  let bb := outer2 w0.b w1.b
+  let u := Tab.reduceMin (Vector.ofFn fun k : Fin (n0 * n1) => (p[k] - bb[k]) / a[k])
+  let b : Tab α (n0 * n1) := Vector.ofFn fun k => p[k] - a[k] * u
+  ⟨b, u, a⟩
+
+def product3RawBeforeZeroCellFix {n0 n1 n2} (w0 : Opinion α n0) (w1 : Opinion α n1) (w2 : Opinion α n2) :
+    Opinion α (n0 * n1 * n2) :=
+  let p := outer3 w0.projection w1.projection w2.projection
+  let a := outer3 w0.a w1.a w2.a
+  let bb := outer3 w0.b w1.b w2.b
+  let u := Tab.reduceMin (Vector.ofFn fun k : Fin (n0 * n1 * n2) => (p[k] - bb[k]) / a[k])
+  let b : Tab α (n0 * n1 * n2) := Vector.ofFn fun k => p[k] - a[k] * u
+  ⟨b, u, a⟩
+
+
 end SLV.Pinned
